@@ -79,6 +79,7 @@ def sh(cmd, timeout=None, cwd=None, env=None, input_=None):
 TRANSLATORS = {
     # gen file -> (translator script, source path relative to REPO)
     "CrcTables.v": ("tools/translate_crc.py", "pytoniq_core/crypto/crc.py"),
+    "TlbImpl.v": ("tools/translate_tlb.py", None),
 }
 
 
@@ -89,7 +90,13 @@ def regenerate(gen_files, log):
     for name in gen_files:
         script, src = TRANSLATORS[name]
         tmp = os.path.join(COQ, "Gen", name + ".new")
-        rc, out, _ = sh([sys.executable, os.path.join(VERIF, script), os.path.join(REPO, src), tmp], timeout=120)
+        if src is None:    # the translator imports the package from PYTHONPATH itself; second argument = side output
+            side = os.path.join(OUT, name.replace(".v", "").lower().replace("tlbimpl", "tlb_impl") + ".json")
+            os.makedirs(OUT, exist_ok=True)
+            env = dict(os.environ, PYTHONPATH=REPO, PYTHONHASHSEED="0")
+            rc, out, _ = sh([sys.executable, os.path.join(VERIF, script), tmp, side], timeout=300, env=env)
+        else:
+            rc, out, _ = sh([sys.executable, os.path.join(VERIF, script), os.path.join(REPO, src), tmp], timeout=120)
         dst = os.path.join(COQ, "Gen", name)
         if rc != 0:
             status[name] = "unsupported: " + out.strip().splitlines()[-1] if out.strip() else "unsupported"
@@ -367,6 +374,36 @@ class Ctx:
                 st["disagree"] += 1
                 if len(self.disagreements) < 50:
                     self.disagreements.append({"stream": stream, "case": c, "impl": a[:400], "model": b[:400]})
+        st["wall_s"] = round(st.get("wall_s", 0) + time.time() - t0, 2)
+        if cases and len(self.samples) < 12:
+            k = self.rng.randrange(len(cases))
+            self.samples.append({"stream": stream, "case": _short(cases[k]), "impl": impl_out[k][:200],
+                                 "model": model_out[k][:200]})
+        return impl_out, model_out
+
+    def correspond_templated(self, stream, cases, to_line, impl_like, nontrivial=lambda c: True, timeout_s=20):
+        """Like correspond, but the implementation's result is rendered in the shape of the model's line
+        (impl_like(case, model_line) -> str)."""
+        t0 = time.time()
+        model_out = run_driver([to_line(c) for c in cases])
+        impl_out = [call_impl(lambda c, m=m: impl_like(c, m), c, timeout_s) for c, m in zip(cases, model_out)]
+        st = self.corr.setdefault(stream, {"cases": 0, "agree": 0, "both_err": 0, "kind_drift": 0,
+                                           "disagree": 0, "impl_err": 0, "by_kind": {}})
+        for c, a, b in zip(cases, impl_out, model_out):
+            st["cases"] += 1
+            self.note_case([stream, c], nontrivial(c))
+            if a.startswith("err"):
+                st["impl_err"] += 1
+                st["by_kind"][a] = st["by_kind"].get(a, 0) + 1
+            if a == b:
+                st["agree"] += 1
+            elif a.startswith("err") and b.startswith("err"):
+                st["agree"] += 1
+                st["both_err"] += 1
+            else:
+                st["disagree"] += 1
+                if len(self.disagreements) < 50:
+                    self.disagreements.append({"stream": stream, "case": c, "impl": a[:600], "model": b[:600]})
         st["wall_s"] = round(st.get("wall_s", 0) + time.time() - t0, 2)
         if cases and len(self.samples) < 12:
             k = self.rng.randrange(len(cases))
